@@ -99,6 +99,11 @@ type FnCtx struct {
 	rangeN int
 	mu sync.Mutex
 	addrFacts map[string]bool
+	lastLoadKey string
+	faddrN int
+	knownOld map[string]bool // reference terms known to exist at entry (non-negative)
+	dirtyAll bool            // some havoc may have put this call's allocations into the heap
+	dirtyKey map[string]bool // a fresh reference was stored under this key
 }
 
 type closureInfo struct {
@@ -348,6 +353,18 @@ func (f *FnCtx) translate() {
 		}
 		f.sweepTags = f.spec.SweepTags
 	}
+	if ks := f.e.scopeKinds[f.fn]; len(ks) > 0 {
+		for _, k := range ks {
+			f.sweep[k] = true
+		}
+		f.sweepTags = append(f.sweepTags, f.e.curProp)
+	}
+	if f.spec != nil {
+		for _, k := range f.spec.NoSweep {
+			delete(f.sweep, k)
+			f.notes = append(f.notes, fmt.Sprintf("%s: sweep kind %q switched off by its contract (not covered)", fnShortName(f.fn), k))
+		}
+	}
 	if f.forceSweep && f.sweepTags == nil {
 		f.sweepTags = []string{"sweep"}
 	}
@@ -356,6 +373,13 @@ func (f *FnCtx) translate() {
 		// reset per-pass state but keep loopFrames
 		f.c = newCtx()
 		f.hs = newHeapSpace(f.c)
+		f.hs.onHavoc = func() { f.dirtyAll = true }
+		f.hs.onHavocKey = func(k string) {
+			if f.dirtyKey == nil {
+				f.dirtyKey = map[string]bool{}
+			}
+			f.dirtyKey[k] = true
+		}
 		f.assumes, f.obls, f.global = nil, nil, nil
 		f.segN, f.seq, f.frameN, f.allocN = 0, 0, 0, 0
 		f.abstr, f.exact = map[string]int{}, map[string]int{}
@@ -367,6 +391,10 @@ func (f *FnCtx) translate() {
 		f.convMemo = nil
 		f.indexTerms = nil
 		f.addrFacts = nil
+		f.faddrN = 0
+		f.dirtyAll = false
+		f.dirtyKey = map[string]bool{}
+		f.knownOld = map[string]bool{}
 		f.rangeKeys = map[int]string{}
 		f.rangeN = 0
 		f.i2fArgs, f.f2iArgs = nil, nil
@@ -385,7 +413,7 @@ func (f *FnCtx) runTop() {
 		v := f.freshVal("p."+p.Name(), p.Type())
 		f.assumeTypeRange(st, v)
 		if v.K == KRef {
-			f.assume(st, app(">=", v.Tm, "0"), "references existing at entry are non-negative (allocations of this call are negative)")
+			f.assumeOldRef(st, v)
 		}
 		args = append(args, v)
 	}
@@ -422,6 +450,7 @@ func (f *FnCtx) runTop() {
 	// lock state at entry: nothing held, except what the contract says the caller holds
 	{
 		lk := f.ghostKey("lockheld", sortInt, true, sortInt)
+		f.hs.final[lk] = true
 		arr := "((as const (Array Int Int)) 0)"
 		if f.spec != nil {
 			env := fr.specEnv(st.heap, st.heap, nil)
@@ -443,7 +472,7 @@ func (f *FnCtx) runTop() {
 		return // never returns normally
 	}
 	// ensures
-	if f.spec != nil {
+	if f.spec != nil && !f.spec.Trusted {
 		env := fr.specEnv(ret.st.heap, fr.oldHeap, ret.vals)
 		for _, c := range f.spec.Ensures {
 			if !f.e.active(c.Tags) {
@@ -460,6 +489,7 @@ func (f *FnCtx) runTop() {
 		}
 	}
 	fr.checkTypeInvariants(ret.st)
+	fr.checkLockBalance(ret.st)
 	fr.checkCtorInvariants(ret)
 	fr.checkFrame(ret.st)
 }
@@ -603,6 +633,12 @@ func addrEscapes(v ssa.Value, seen map[ssa.Value]bool) bool {
 			// slicing a local array (varargs packing): the slice escapes into calls,
 			// but callees treat it read-only in this code base; be conservative.
 			return true
+		case *ssa.MakeClosure:
+			// captured by a closure that is only deferred or called directly, and
+			// whose body only loads/stores through the captured cell: stays local
+			if closureLeaks(x, v) {
+				return true
+			}
 		default:
 			return true
 		}
@@ -904,6 +940,19 @@ func (fr *frame) loopHeader(h *ssa.BasicBlock, st *bstate) *bstate {
 		nh = f.hs.havocAll(pre)
 		nh.isLoop = f.dry
 		if !f.dry && lf != nil && lf.all {
+			// the body calls unknown code: that part of the frame is a call havoc; the body's own writes are havocked on top
+			nh.byCall = true
+			own := map[string]bool{}
+			for k := range lf.keys {
+				if k != "G.lockheld" && f.hs.sorts[k] != "" {
+					own[k] = true
+				}
+			}
+			inner := nh
+			nh = f.hs.havocKeys(nh, own)
+			_ = inner
+		}
+		if !f.dry && lf != nil && lf.all {
 			f.notes = append(f.notes, fmt.Sprintf("loop %d of %s: whole heap havocked (unknown call in body)", fr.loopOrd[h], fnShortName(fr.fn)))
 		}
 	} else {
@@ -911,8 +960,8 @@ func (fr *frame) loopHeader(h *ssa.BasicBlock, st *bstate) *bstate {
 		for _, key := range sortedKeys(lf.keys) {
 			objs := lf.keys[key]
 			srt := f.hs.sorts[key]
-			if srt == "" {
-				continue
+			if srt == "" || key == "G.lockheld" {
+				continue // lock state: automatic invariant "as at loop entry", checked on every back edge
 			}
 			if objs["*"] || !strings.HasPrefix(srt, "(Array") {
 				ks := map[string]bool{key: true}
@@ -963,6 +1012,10 @@ func (fr *frame) loopHeader(h *ssa.BasicBlock, st *bstate) *bstate {
 		v := f.freshVal(fmt.Sprintf("phi.%s", p.Name()), p.Type())
 		f.assumeTypeRange(nst, v)
 		fr.vals[p] = v
+	}
+	// 3a. type invariants of the parameters are loop invariants too (checked on every back edge)
+	if fr.top && !(fr.spec != nil && fr.spec.Helper) {
+		fr.loopTypeInvariants(h, nst, nil)
 	}
 	// 3. assume invariants
 	if ls != nil {
@@ -1049,6 +1102,16 @@ func (fr *frame) loopBackEdge(from, h *ssa.BasicBlock) {
 			hh.loopSet = lf
 		}
 		return
+	}
+	if lk := "G.lockheld"; f.hs.sorts[lk] != "" && fr.headerHeap[h] != nil {
+		b, a := f.hs.read(fr.headerHeap[h], lk), f.hs.read(out.heap, lk)
+		if a != b {
+			f.oblige(&bstate{reach: ec, heap: out.heap, seg: out.seg}, fmt.Sprintf("%s#loop%d:lock-balance", fnShortName(fr.fn), fr.loopOrd[h]), "lock-balance",
+				[]string{"C06", "C09", "C12", "C20"}, eq(a, b), "locks held at the end of an iteration are those held at its start", posStr(f.e.fset, fr.fn.Pos()))
+		}
+	}
+	if fr.top && !(fr.spec != nil && fr.spec.Helper) {
+		fr.loopTypeInvariants(h, &bstate{reach: ec, heap: out.heap, seg: out.seg}, from)
 	}
 	ls := fr.loopSpec(h)
 	if ls == nil {
@@ -1447,12 +1510,16 @@ func (f *FnCtx) elemKey(base string, t types.Type) string {
 func (f *FnCtx) faddr(obj string, t types.Type, i int) string {
 	st := t.Underlying().(*types.Struct)
 	name := "faddr." + structKey(t) + "." + st.Field(i).Name()
-	f.c.declFun(name, []string{sortInt}, sortInt)
+	if _, ok := f.c.syms[name]; !ok {
+		// interior addresses are arithmetic: injective, pairwise disjoint between
+		// different fields, negative exactly for objects allocated by this call
+		f.faddrN++
+		f.c.defineFun(name, []string{"x"}, []string{sortInt}, sortInt, fmt.Sprintf("(+ (* 4096 x) %d)", f.faddrN%4095+1), false)
+	}
 	r := app(name, obj)
 	if f.localAllocs[obj] {
 		f.localAllocs[r] = true
 	}
-	f.addrFact(r, obj)
 	return r
 }
 
@@ -1480,9 +1547,11 @@ func (f *FnCtx) eaddr(base, idx string, t types.Type) string {
 // load reads a value of type t at pointer value p.
 func (f *FnCtx) load(h *Heap, p Val, t types.Type) Val {
 	k := kindOf(t)
+	f.lastLoadKey = ""
 	if p.K == KAddr {
 		a := p.A
 		arr := f.hs.read(h, a.Key)
+		f.lastLoadKey = a.Key
 		if a.Idx != "" {
 			return Val{K: k, T: t, Tm: app("select", app("select", arr, a.Obj), a.Idx)}
 		}
@@ -1515,13 +1584,26 @@ func (f *FnCtx) load(h *Heap, p Val, t types.Type) Val {
 		return Val{K: KRef, T: t, Tm: p.Tm}
 	}
 	key := f.cellKey(p.Tm, t)
+	f.lastLoadKey = key
 	return Val{K: k, T: t, Tm: app("select", f.hs.read(h, key), p.Tm)}
+}
+
+func isFreshRefTerm(t string) bool {
+	return strings.HasPrefix(t, "(- ") || strings.HasPrefix(t, "alloc!") || strings.HasPrefix(t, "slice!") || strings.Contains(t, "alloc!") || strings.Contains(t, "(- 40") || strings.Contains(t, "slice!")
 }
 
 // store writes v (of type t) at pointer value p; returns the new heap.
 func (f *FnCtx) store(h *Heap, p Val, t types.Type, v Val) *Heap {
+	if f.dirtyKey == nil {
+		f.dirtyKey = map[string]bool{}
+	}
 	if p.K == KAddr {
 		a := p.A
+		if v.K == KRef || v.K == KAny {
+			if v.Tm != "0" && v.Tm != "any_nil" && !f.knownOld[v.Tm] {
+				f.dirtyKey[a.Key] = true
+			}
+		}
 		arr := f.hs.read(h, a.Key)
 		var na string
 		if a.Idx != "" {
@@ -1552,6 +1634,9 @@ func (f *FnCtx) store(h *Heap, p Val, t types.Type, v Val) *Heap {
 				f.abstr["store-array-field"]++
 			} else {
 				key := f.fieldKey(p.Tm, t, i)
+				if fv := v.Fs[i]; (fv.K == KRef || fv.K == KAny) && fv.Tm != "0" && fv.Tm != "any_nil" && !f.knownOld[fv.Tm] {
+					f.dirtyKey[key] = true
+				}
 				arr := f.hs.read(h, key)
 				nh := f.hs.write(h, key, f.c.define("Hw."+key, f.hs.sorts[key], app("store", arr, p.Tm, v.Fs[i].Tm)))
 				nh.obj = p.Tm
@@ -1567,6 +1652,9 @@ func (f *FnCtx) store(h *Heap, p Val, t types.Type, v Val) *Heap {
 		return h
 	}
 	key := f.cellKey(p.Tm, t)
+	if (v.K == KRef || v.K == KAny) && v.Tm != "0" && v.Tm != "any_nil" && !f.knownOld[v.Tm] {
+		f.dirtyKey[key] = true
+	}
 	arr := f.hs.read(h, key)
 	nh := f.hs.write(h, key, f.c.define("Hw."+key, f.hs.sorts[key], app("store", arr, p.Tm, v.Tm)))
 	nh.obj = p.Tm
@@ -1610,7 +1698,7 @@ func (f *FnCtx) sliceCap(s string) string  { return app(f.slFn("sl_cap"), s) }
 // newSlice makes a fresh slice value with the given base/off/len.
 func (f *FnCtx) newSlice(st *bstate, t types.Type, base, off, ln string) Val {
 	s := f.c.freshConst("slice", sortInt)
-	f.assume(st, and(eq(f.sliceBase(s), base), eq(f.sliceOff(s), off), eq(f.sliceLen(s), ln), app(">=", f.sliceCap(s), ln), not(eq(s, "0"))), "slice construction")
+	f.assume(st, and(eq(f.sliceBase(s), base), eq(f.sliceOff(s), off), eq(f.sliceLen(s), ln), app(">=", f.sliceCap(s), ln), app("<", s, "0")), "slice construction (a slice header made by this call is a fresh reference)")
 	return Val{K: KRef, T: t, Tm: s}
 }
 
@@ -1710,6 +1798,11 @@ func (f *FnCtx) typeTest(x Val, t types.Type) (string, Val) {
 		if it.NumMethods() == 0 {
 			return not(eq(x.Tm, "any_nil")), Val{K: KAny, T: t, Tm: x.Tm}
 		}
+		if x.T != nil {
+			if xi, ok := x.T.Underlying().(*types.Interface); ok && types.Implements(x.T, it) && xi.NumMethods() > 0 {
+				return not(eq(x.Tm, "any_nil")), Val{K: KAny, T: t, Tm: x.Tm}
+			}
+		}
 		name := "impl." + typeKey(t)
 		f.c.declFun(name, []string{sortInt}, sortBool)
 		f.ifaceUsed[name] = it
@@ -1794,4 +1887,100 @@ func (fr *frame) val(v ssa.Value) Val {
 		fr.vals[v] = val
 	}
 	return val
+}
+
+// assumeOldRef: v denotes a reference that existed when the function was
+// entered: it is non-negative (this call's allocations are negative) and, for
+// a slice, so is its backing array.
+func (f *FnCtx) assumeOldRef(st *bstate, v Val) {
+	if f.knownOld == nil {
+		f.knownOld = map[string]bool{}
+	}
+	if f.knownOld[v.Tm] {
+		return
+	}
+	f.knownOld[v.Tm] = true
+	t := app(">=", v.Tm, "0")
+	if v.T != nil {
+		if _, ok := v.T.Underlying().(*types.Slice); ok {
+			t = and(t, app(">=", f.sliceBase(v.Tm), "0"))
+		}
+	}
+	f.assume(st, t, "references existing at entry are non-negative (allocations of this call are negative)")
+}
+
+// havocDirty: after a havoc of unknown extent the heap may contain this call's escaped allocations.
+func (f *FnCtx) markHavoc() { f.dirtyAll = true }
+
+func closureLeaks(mc *ssa.MakeClosure, cell ssa.Value) bool {
+	refs := mc.Referrers()
+	if refs == nil {
+		return true
+	}
+	for _, r := range *refs {
+		switch u := r.(type) {
+		case *ssa.DebugRef:
+		case *ssa.Defer:
+			if u.Call.Value != mc {
+				return true
+			}
+		case *ssa.Call:
+			if u.Call.Value != mc {
+				return true
+			}
+		default:
+			return true
+		}
+	}
+	fn, ok := mc.Fn.(*ssa.Function)
+	if !ok {
+		return true
+	}
+	for i, b := range mc.Bindings {
+		if b != cell || i >= len(fn.FreeVars) {
+			continue
+		}
+		if addrEscapes(fn.FreeVars[i], map[ssa.Value]bool{}) {
+			return true
+		}
+	}
+	return false
+}
+
+// loopTypeInvariants: from == nil: assume at the header; otherwise oblige on the back edge.
+func (fr *frame) loopTypeInvariants(h *ssa.BasicBlock, st *bstate, from *ssa.BasicBlock) {
+	f := fr.f
+	for _, p := range fr.fn.Params {
+		ts := f.e.typeSpecOf(p.Type())
+		if ts == nil || len(ts.Invs) == 0 || fr.isCtorOf(ts) {
+			continue
+		}
+		if _, isPtr := p.Type().Underlying().(*types.Pointer); !isPtr {
+			continue
+		}
+		for _, inv := range ts.Invs {
+			if !f.e.active(inv.Tags) {
+				continue
+			}
+			env := f.newEnv(ts.Pkg, st.heap, fr.oldHeap, map[string]Val{"self": fr.vals[p]}, nil)
+			if from == nil {
+				if v, err := env.evalBool(inv.E); err == nil {
+					f.assume(st, v, "type invariant of "+ts.Name+" at loop head: "+inv.Src)
+				}
+				f.hs.ignoreCallHavoc = true
+				if v, err := env.evalBool(inv.E); err == nil {
+					f.assume(st, v, "type invariant of "+ts.Name+" at loop head (own writes only): "+inv.Src)
+				}
+				f.hs.ignoreCallHavoc = false
+				continue
+			}
+			f.hs.ignoreCallHavoc = true
+			v, err := env.evalBool(inv.E)
+			f.hs.ignoreCallHavoc = false
+			if err != nil {
+				continue
+			}
+			f.oblige(st, fmt.Sprintf("%s#loop%d:type-invariant:%s:%s", fnShortName(fr.fn), fr.loopOrd[h], ts.Name, clauseLabel(inv)), "type-invariant", inv.Tags, v, inv.Src, inv.Line)
+		}
+	}
 }
